@@ -46,7 +46,10 @@ def recordOffsetDelta (i : Int) (od : Int) : Int :=
   let od_v1 : Int := i
   od_v1
 
--- fun innerOffset: NOT TRANSLATED: no statement starting with "msg.Offset = int64(i)" in (*produceSet).buildRequest
+/-- generated from produce_set.go (*produceSet).buildRequest (fragment starting at `msg.Offset = int64(i)`) -/
+def innerOffset (i : Int) (off : Int) : Int :=
+  let off_v1 : Int := i
+  off_v1
 
 /-- generated from produce_set.go (*produceSet).buildRequest (fragment starting at `if ps.parent.conf.Version.IsAtLeast(V0_10_0_0) { compMsg.Version`) -/
 def wrapperV1 (isV1 : Bool) (magic : Int) (wts : Int) (firstTs : Int) : Int × Int :=
@@ -57,7 +60,13 @@ def wrapperV1 (isV1 : Bool) (magic : Int) (wts : Int) (firstTs : Int) : Int × I
   else
     (magic, wts)
 
--- fun innerOffsetsGate: NOT TRANSLATED: statement for i, msg := range set.recordsToSend.MsgSet.Messages { _ = msg _ = i } (*ast.RangeStmt) not supported
+/-- generated from produce_set.go (*produceSet).buildRequest (fragment starting at `if ps.parent.conf.Version.IsAtLeast(V0_10_0_0) { for i, msg`) -/
+def innerOffsetsGate (isV1 : Bool) (renumbered0 : Bool) (yes : Bool) : Bool :=
+  if (isV1 = true) then
+    let renumbered0_v1 : Bool := yes
+    renumbered0_v1
+  else
+    renumbered0
 
 /-- generated from produce_set.go (*produceSet).add (fragment starting at `if ps.parent.conf.Version.IsAtLeast(V0_10_0_0) { msgToSend.Timestamp`) -/
 def addMsgV1 (isV1 : Bool) (magic : Int) (mts : Int) (timestamp : Int) : Int × Int :=
